@@ -164,7 +164,11 @@ func buildC11Cells() []c11cell {
 		return n
 	}
 	out = append(out, c11cell{name: "Struct coerce (not a record)", node: st, parse: "not a record", code: "coerce", dtype: "struct", value: "not a record"})
-	out = append(out, c11cell{name: "Ptr(Struct).NotNil (nil)", node: func() *spec.Node { n := &spec.Node{Kind: spec.Ptr, Elem: st(), Mods: []spec.Mod{{Op: spec.MNotNil}}}; n.Number(); return n }, parse: missingKey{}, val: obs.PtrV{Nil: true}, code: "not_nil", dtype: "struct"})
+	out = append(out, c11cell{name: "Ptr(Struct).NotNil (nil)", node: func() *spec.Node {
+		n := &spec.Node{Kind: spec.Ptr, Elem: st(), Mods: []spec.Mod{{Op: spec.MNotNil}}}
+		n.Number()
+		return n
+	}, parse: missingKey{}, val: obs.PtrV{Nil: true}, code: "not_nil", dtype: "struct"})
 	out = append(out, c11cell{name: "zjson invalid_json", node: st, front: "invalid_json", code: "invalid_json", dtype: "struct"})
 	out = append(out, c11cell{name: "zjson invalid_json null body", node: st, front: "invalid_json_null", code: "invalid_json", dtype: "struct"})
 	out = append(out, c11cell{name: "zhttp invalid_json", node: st, front: "zhttp_invalid_json", code: "invalid_json", dtype: "struct"})
@@ -426,7 +430,9 @@ func c11Precedence(c *core.Ctx) {
 			if globalLevel {
 				conf.IssueFormatter = func(e *z.ZogIssue, ctx z.Ctx) { e.SetMessage("GLOBAL:" + e.Code) }
 			}
-			delegated := func(code string) bool { return delegating && (code == "required" || code == "coerce" || code == "not_nil") }
+			delegated := func(code string) bool {
+				return delegating && (code == "required" || code == "coerce" || code == "not_nil")
+			}
 			var opts []z.ExecOption
 			if execLevel {
 				opts = append(opts, z.WithIssueFormatter(func(e *z.ZogIssue, ctx z.Ctx) {
